@@ -5,7 +5,7 @@
   (regenerated from the C++ on every run).
 
   State = the ring of `(s, y, ρ)` slots, the `α` row (a separate list: `apply` is `const` and
-  only writes `α`; `apply_masked` also writes `ρ` — modelled as the code does it), `idx`, `full`.
+  only writes `α`; so does the repaired `apply_masked`), `idx`, `full`.
   `history()` is `slots.length`.
 -/
 import Alpaqa.Model.C09Base
@@ -128,42 +128,48 @@ def axmyJ (fullJ : Bool) (J : List Nat) (a : α) (x y : Vec α) : Vec α :=
 def scalJ (fullJ : Bool) (J : List Nat) (a : α) (x : Vec α) : Vec α :=
   if fullJ then smul a x else J.foldl (fun x j => x.set j (vget x j * a)) x
 
+/-- Loop state of `apply_masked_impl`.  `skip` abstracts the marker the code keeps in the `α`
+    row: `skip[i]` ⇔ `std::isnan(α(i))` (set for a pair that is invalid on `J`; for a valid pair it
+    is `isnan` of the `α` just computed).  It is rebuilt for every visited index on every call,
+    so it is not part of the persistent state. -/
 structure MaskAcc (α : Type) where
-  slots : List (Slot α)
-  al    : List α
-  q     : Vec α
-  γ     : α
+  al   : List α
+  skip : List Bool
+  q    : Vec α
+  γ    : α
 
-/-- Body of the first loop of `apply_masked_impl` for ring index `i`. -/
-def maskedRevStep (p : Params α) (fullJ : Bool) (J : List Nat) (a : MaskAcc α) (i : Nat) :
-    MaskAcc α :=
-  let c := a.slots.getD i default
+/-- Body of the first loop of `apply_masked_impl` for ring index `i`.  The stored `ρ(i)` is
+    *not* written (repaired code: the `J`-restricted `ρ` is a local). -/
+def maskedRevStep (p : Params α) (fullJ : Bool) (J : List Nat) (slots : List (Slot α))
+    (a : MaskAcc α) (i : Nat) : MaskAcc α :=
+  let c := slots.getD i default
   let yTs := dotJ fullJ J c.s c.y
   let sTs := dotJ fullJ J c.s c.s
   let ρ := 1 / yTs
   if !(updateValid p yTs sTs 0) then
-    { a with slots := a.slots.set i { c with rho := HasNaN.nan } }
+    { a with al := a.al.set i HasNaN.nan, skip := a.skip.set i true }
   else
     let αi := ρ * dotJ fullJ J c.s a.q
     let q := axmyJ fullJ J αi c.y a.q
     let γ := if a.γ < 0 then 1 / (ρ * dotJ fullJ J c.y c.y) else a.γ
-    { slots := a.slots.set i { c with rho := ρ }, al := a.al.set i αi, q := q, γ := γ }
+    { al := a.al.set i αi, skip := a.skip.set i (RealLike.isNaN αi), q := q, γ := γ }
 
-/-- Body of the second loop of `apply_masked_impl`. -/
+/-- Body of the second loop of `apply_masked_impl`: skipped pairs stay skipped, the
+    `J`-restricted `ρ` is recomputed. -/
 def maskedFwdStep (fullJ : Bool) (J : List Nat) (slots : List (Slot α)) (al : List α)
-    (q : Vec α) (i : Nat) : Vec α :=
+    (skip : List Bool) (q : Vec α) (i : Nat) : Vec α :=
   let c := slots.getD i default
-  if RealLike.isNaN c.rho then q
+  if skip.getD i false then q
   else
-    let β := c.rho * dotJ fullJ J c.y q
+    let ρ := 1 / dotJ fullJ J c.s c.y
+    let β := ρ * dotJ fullJ J c.y q
     axmyJ fullJ J (β - al.getD i 0) c.s q
 
 inductive MaskedResult (α : Type) where
   | threw                                     -- `std::invalid_argument` (CBFGS enabled)
   | done (st : State α) (q : Vec α) (ok : Bool)
 
-/-- `apply_masked_impl(q, γ, J)`.  Note that it *overwrites the stored `ρ(i)`* of every pair with
-    the value restricted to `J` (or NaN) — this is what the C++ does (DESIGN §7-I). -/
+/-- `apply_masked_impl(q, γ, J)` (repaired: only the `α` row of the state changes). -/
 def applyMasked (p : Params α) (st : State α) (q : Vec α) (γ : α) (J : List Nat) :
     MaskedResult α :=
   if st.isEmpty then .done st q false
@@ -172,12 +178,13 @@ def applyMasked (p : Params α) (st : State α) (q : Vec α) (γ : α) (J : List
     let γ := if p.curvature then -1 else γ
     if Gen.cbfgsEnabled p.cbfgsAlpha p.cbfgsEps then .threw
     else
-      let a := st.revIdx.foldl (maskedRevStep p fullJ J) ⟨st.slots, st.al, q, γ⟩
-      let st' := { st with slots := a.slots, al := a.al }
+      let a := st.revIdx.foldl (maskedRevStep p fullJ J st.slots)
+        ⟨st.al, List.replicate st.al.length false, q, γ⟩
+      let st' := { st with al := a.al }
       if a.γ < 0 then .done st' a.q false
       else
         let q2 := scalJ fullJ J a.γ a.q
-        let q3 := st.fwdIdx.foldl (maskedFwdStep fullJ J a.slots a.al) q2
+        let q3 := st.fwdIdx.foldl (maskedFwdStep fullJ J st.slots a.al a.skip) q2
         .done st' q3 true
 
 /-- `scale_y(factor)`: `y(i) *= factor; ρ(i) *= 1/factor` on the raw slots `0 … current_history−1`. -/
